@@ -712,4 +712,200 @@ theorem task_spec (C : Cfg) (hC : 1 < C.stepsMax) (P : HsP) (u : Bool) (dc ds : 
       · exact absurd h hin
       · exact absurd h hpo
 
+/-- one `Driver::Step` -/
+theorem driveG_spec (C : Cfg) (hC : 1 < C.stepsMax) (P : HsP) (u : Bool) (dc ds : Bytes) (rx : Nat) (hrx : 1 ≤ rx)
+    (y : SysAG) (hy : GInv P u dc ds y) :
+    GInv P u dc ds (y.step C P u dc ds rx .drive) ∧ (y.step C P u dc ds rx .drive).ep = y.ep ∧
+    work P (y.step C P u dc ds rx .drive).x.s.e ≤ work P y.x.s.e ∧
+    (CanProg u y.x.s.e y.x.s.w → work P (y.step C P u dc ds rx .drive).x.s.e < work P y.x.s.e) ∧
+    y.x.s.w.out u ≤ (y.step C P u dc ds rx .drive).x.s.w.out u ∧
+    y.x.s.e.stage ≤ (y.step C P u dc ds rx .drive).x.s.e.stage := by
+  obtain ⟨po, sup, hq, hcase⟩ := aQuery_cases P y.x hy.reg hy.lastErr
+  obtain ⟨hy1, hpo1⟩ := requery_inv P u dc ds y hy po sup hcase
+  rw [drive_eq_task C P u dc ds rx y po sup hq]
+  obtain ⟨r1, p1⟩ := task_spec C hC P u dc ds rx hrx _ hy1
+  refine ⟨r1.inv, r1.ep, r1.wk, ?_, r1.out, r1.st⟩
+  intro hcp
+  apply p1 hcp
+  by_cases hin : 0 < y.x.s.w.inb u
+  · exact Or.inl hin
+  · exact Or.inr (hpo1 hcp (by omega))
+
+/-- the user queues a buffer -/
+theorem enqG_spec (C : Cfg) (P : HsP) (u : Bool) (dc ds : Bytes) (rx : Nat) (y : SysAG) (hy : GInv P u dc ds y)
+    (buf : Bytes) (hb : buf ≠ []) :
+    GInv P u dc ds (y.step C P u dc ds rx (.enq buf)) ∧ (y.step C P u dc ds rx (.enq buf)).ep = y.ep ∧
+    (y.step C P u dc ds rx (.enq buf)).x.s = y.x.s := by
+  have hstep : y.step C P u dc ds rx (.enq buf) = { y with x := enqueue y.x buf } := rfl
+  rw [hstep]
+  have hs : (enqueue y.x buf).s = y.x.s := rfl
+  have hq : (enqueue y.x buf).a.sendQ = y.x.a.sendQ ++ [buf] := rfl
+  have hreg : (enqueue y.x buf).a.registered = y.x.a.registered := rfl
+  have hpo : (enqueue y.x buf).a.pollOut = if y.x.a.sendQ.isEmpty ∧ y.x.a.registered then true else y.x.a.pollOut := rfl
+  have hne : y.x.a.sendQ ++ [buf] ≠ [] := by simp
+  refine ⟨⟨hy.inv, hy.ir, hy.reg, ?_, ?_, ?_, hy.tight, ?_, ?_, ?_⟩, rfl, rfl⟩
+  · show (enqueue y.x buf).a.sendQ ≠ [] → ((enqueue y.x buf).a.pollOut = true ∨ y.x.s.g.driverSendSuppressed = true)
+    intro _
+    rw [hpo]
+    by_cases he : y.x.a.sendQ.isEmpty = true
+    · left; simp [he, hy.reg]
+    · have : y.x.a.sendQ ≠ [] := by intro h; rw [h] at he; simp at he
+      rcases hy.armed this with h | h
+      · left; simp [he, h]
+      · exact Or.inr h
+  · intro _; rw [hq]; exact hne
+  · show ¬ ((enqueue y.x buf).a.pollOut = true ∧ y.x.s.g.driverSendSuppressed = true)
+    rw [hpo]
+    rintro ⟨h1, h2⟩
+    by_cases he : y.x.a.sendQ.isEmpty = true
+    · have : y.x.a.sendQ = [] := by simpa using he
+      exact hy.armed' (Or.inr h2) this
+    · simp [he] at h1
+      exact hy.excl ⟨h1, h2⟩
+  · intro _ _; rw [hq]; exact hne
+  · show y.x.s.g.pendingSend = [] ∨ ∃ rest, (enqueue y.x buf).a.sendQ = y.x.s.g.pendingSend :: rest
+    rcases hy.pend with h | ⟨r', h⟩
+    · exact Or.inl h
+    · right; rw [hq, h]; exact ⟨r' ++ [buf], rfl⟩
+  · intro b hb'
+    rw [hq] at hb'
+    rcases List.mem_append.mp hb' with h | h
+    · exact hy.qne b h
+    · simp at h; rw [h]; exact hb
+
+/-- one call of the polling peer -/
+theorem peerG_spec (C : Cfg) (hC : 1 < C.stepsMax) (P : HsP) (u : Bool) (dc ds : Bytes) (hdc : dc ≠ []) (hds : ds ≠ [])
+    (rx : Nat) (y : SysAG) (hy : GInv P u dc ds y) (k : Kind) (hk : k.ok) :
+    GInv P u dc ds (y.step C P u dc ds rx (.peer k)) ∧ (y.step C P u dc ds rx (.peer k)).x.s.e = y.x.s.e ∧
+    work P (y.step C P u dc ds rx (.peer k)).ep ≤ work P y.ep ∧
+    (CanProg (!u) y.ep y.x.s.w → work P (y.step C P u dc ds rx (.peer k)).ep < work P y.ep) ∧
+    y.x.s.w.inb u ≤ (y.step C P u dc ds rx (.peer k)).x.s.w.inb u ∧
+    y.ep.stage ≤ (y.step C P u dc ds rx (.peer k)).ep.stage := by
+  obtain ⟨i1, w1, p1, s1, c1⟩ := poll_spec C hC P u dc ds hdc hds (nfp y.x.s).g y.x.s.e y.pw hy.inv k hk
+  refine ⟨⟨?_, hy.ir, hy.reg, hy.armed, hy.armed', hy.excl, hy.tight, hy.fed, hy.pend, hy.qne⟩, rfl, w1, p1, c1, s1⟩
+  have : SysAG.sys u (y.step C P u dc ds rx (.peer k)) = mkSys u (nfp y.x.s).g y.x.s.e (y.pw.poll C P u dc ds k) := by
+    cases u <;> rfl
+  rw [this]; exact i1
+
+/-- the composition as a fair-progress system: side `u` = the asynchronous endpoint's driver, side `!u` = the peer;
+queueing a buffer is a neutral step -/
+def agTS (C : Cfg) (hC : 1 < C.stepsMax) (P : HsP) (u : Bool) (dc ds : Bytes) (hdc : dc ≠ []) (hds : ds ≠ [])
+    (rx : Nat) (hrx : 1 ≤ rx) : Fair.TS SysAG ActG where
+  step := SysAG.step C P u dc ds rx
+  inv := GInv P u dc ds
+  mu y := work P y.x.s.e + work P y.ep
+  side a := match a with
+    | .drive => some u
+    | .enq _ => none
+    | .peer _ => some (!u)
+  can y r := if r = u then CanProg u y.x.s.e y.x.s.w else CanProg (!u) y.ep y.x.s.w
+  fin := SysAG.bothFinished
+  ok := ActG.okG
+  step_ok := by
+    intro y a hy ha
+    cases a with
+    | drive =>
+      obtain ⟨i1, e1, w1, p1, c1, s1⟩ := driveG_spec C hC P u dc ds rx hrx y hy
+      refine ⟨i1, ?_, ?_, ?_, ?_⟩
+      · show work P _ + work P _ ≤ work P _ + work P _
+        rw [e1]; omega
+      · intro r hr hp
+        have hr' : r = u := by cases hr; rfl
+        subst hr'
+        simp only [if_true] at hp
+        have := p1 hp
+        show work P _ + work P _ < work P _ + work P _
+        rw [e1]; omega
+      · intro r hr hp
+        have hr' : r ≠ u := by intro h; apply hr; rw [h]
+        simp only [if_neg hr'] at hp ⊢
+        rw [e1]
+        obtain ⟨h1, h2⟩ := hp
+        refine ⟨h1, ?_⟩
+        rcases h2 with h2 | h2
+        · exact Or.inl h2
+        · right
+          have hio : ∀ c : Chan, c.inb (!u) = c.out u := by intro c; cases u <;> rfl
+          rw [hio] at h2 ⊢; omega
+      · intro hf
+        exact ⟨Nat.le_trans hf.1 s1, by rw [e1]; exact hf.2⟩
+    | enq buf =>
+      obtain ⟨i1, e1, e2⟩ := enqG_spec C P u dc ds rx y hy buf ha
+      refine ⟨i1, ?_, ?_, ?_, ?_⟩
+      · show work P _ + work P _ ≤ work P _ + work P _
+        rw [e1, e2]; omega
+      · intro r hr; cases hr
+      · intro r _ hp
+        show (if r = u then CanProg u _ _ else CanProg (!u) _ _)
+        rw [e1, e2]; exact hp
+      · intro hf
+        exact ⟨by rw [e2]; exact hf.1, by rw [e1]; exact hf.2⟩
+    | peer k =>
+      obtain ⟨i1, e1, w1, p1, c1, s1⟩ := peerG_spec C hC P u dc ds hdc hds rx y hy k ha
+      refine ⟨i1, ?_, ?_, ?_, ?_⟩
+      · show work P _ + work P _ ≤ work P _ + work P _
+        rw [e1]; omega
+      · intro r hr hp
+        have hr' : r = !u := by cases hr; rfl
+        subst hr'
+        have hne : (!u) ≠ u := by cases u <;> simp
+        simp only [if_neg hne] at hp
+        have := p1 hp
+        show work P _ + work P _ < work P _ + work P _
+        rw [e1]; omega
+      · intro r hr hp
+        have hr' : r = u := by
+          cases r <;> cases u <;> simp_all
+        subst hr'
+        simp only [if_true] at hp ⊢
+        rw [e1]
+        obtain ⟨h1, h2⟩ := hp
+        refine ⟨h1, ?_⟩
+        rcases h2 with h2 | h2
+        · exact Or.inl h2
+        · right; omega
+      · intro hf
+        exact ⟨by rw [e1]; exact hf.1, Nat.le_trans hf.2 s1⟩
+  live := by
+    intro y hy hnf
+    have hnf' : ¬ (y.sys u).bothFinished := by
+      intro hb; apply hnf
+      cases u <;> simp [SysAG.sys, mkSys, Sys.bothFinished, SysAG.bothFinished, SysAG.pw] at hb ⊢ <;> omega
+    rcases can_progress P dc ds (y.sys u) hy.inv hnf' with h | h
+    · cases u with
+      | true => left; simpa [SysAG.sys, mkSys, SysAG.pw] using h
+      | false => left; simpa [SysAG.sys, mkSys, SysAG.pw] using h
+    · cases u with
+      | true => right; simpa [SysAG.sys, mkSys, SysAG.pw] using h
+      | false => right; simpa [SysAG.sys, mkSys, SysAG.pw] using h
+  zero := by
+    intro y _ h0
+    exact ⟨work_zero_fin P _ (by omega), work_zero_fin P _ (by omega)⟩
+
+theorem agTS_run (C : Cfg) (hC : 1 < C.stepsMax) (P : HsP) (u : Bool) (dc ds : Bytes) (hdc : dc ≠ []) (hds : ds ≠ [])
+    (rx : Nat) (hrx : 1 ≤ rx) (l : List ActG) (y : SysAG) :
+    (agTS C hC P u dc ds hdc hds rx hrx).run l y = SysAG.run C P u dc ds rx l y := rfl
+
+/-- the initial state: an asynchronous client must have something queued -/
+theorem gInv_init (P : HsP) (u : Bool) (dc ds : Bytes) (segs : List Nat) (q : List Bytes) (hq : ∀ b ∈ q, b ≠ [])
+    (hfed : u = true → q ≠ []) : GInv P u dc ds (SysAG.init P u segs q) := by
+  have hinv : SysInv P dc ds ((SysAG.init P u segs q).sys u) := by
+    have := sysInv_init P dc ds segs
+    cases u <;> exact this
+  refine ⟨hinv, rfl, rfl, ?_, ?_, ?_, fun _ => Or.inr ⟨rfl, rfl, rfl⟩, fun hu _ => hfed hu, Or.inl rfl, hq⟩
+  · intro hne
+    left
+    show (!q.isEmpty) = true
+    cases q with
+    | nil => exact absurd rfl hne
+    | cons b t => rfl
+  · intro hor
+    rcases hor with h | h
+    · intro hq0
+      have h1 : (!q.isEmpty) = true := h
+      have h2 : q = [] := hq0
+      rw [h2] at h1; simp at h1
+    · cases h
+  · rintro ⟨_, h⟩; cases h
+
 end SockModel.Hs
